@@ -677,12 +677,45 @@ def F4_adapter(ctx, rule, b):
 # ---------------------------------------------------------------------------
 # C08
 
+def track_refs(ctx, f):
+    """where the tracking function finds the interruptibility state and the include flag: (parameter index, field path),
+    either as parameters of their own or as fields of a small crate-private options struct passed as one parameter"""
+    st = inc = None
+    for i, x in enumerate(f["inputs"]):
+        s_ = x["s"]
+        if "InterruptibilityState" in s_ and not s_.lstrip("&").replace("mut ", "").strip().split("<")[0] in ctx.fb.adts:
+            st = (i + 1, ())
+        elif s_ == "bool":
+            inc = (i + 1, ())
+        else:
+            adt = ctx.fb.adts.get(s_.lstrip("&").replace("mut ", "").strip().split("<")[0])
+            if adt is not None and not adt.get("public") and adt.get("kind") == "Struct":
+                for fi, fd in enumerate(adt["variants"][0]["fields"]):
+                    if "InterruptibilityState" in fd["ty"]["s"]:
+                        st = (i + 1, (fi,))
+                    elif fd["ty"]["s"] == "bool":
+                        inc = (i + 1, (fi,))
+    return st, inc
+
+
+def is_ref_expr(e, ref):
+    """expression `e` denotes the value at `ref` = (parameter index, field path)"""
+    if ref is None:
+        return False
+    e = strip_refs(e)
+    for fld in reversed(ref[1]):
+        if not (e.kind == "field" and e[2] == fld):
+            return False
+        e = strip_refs(e[1])
+    return e.kind == "arg" and e[1] == ref[0]
+
+
 def track_fn(ctx):
     """the crate-local function that takes the READY receiver and an InterruptibilityState"""
     cands = []
     for f in ctx.fb.fns.values():
         ins = [i["s"] for i in f["inputs"]]
-        if any("mpsc::Receiver<" in s for s in ins) and any("InterruptibilityState" in s for s in ins):
+        if any("mpsc::Receiver<" in s for s in ins) and (any("InterruptibilityState" in s for s in ins) or track_refs(ctx, f)[0] is not None):
             cands.append(f)
     # the one that wraps the stream itself (others merely pass the receiver and the state on)
     own = []
@@ -706,9 +739,10 @@ def I_rules(ctx, rule="I"):
         ctx.unverifiable(rule + "1", "track-fn", "-", "ready-stream tracking function (Receiver + InterruptibilityState) not found")
         return
     tb = fb.bodies[tf["id"]]
-    st_idx = [i for i, x in enumerate(tf["inputs"]) if "InterruptibilityState" in x["s"]][0] + 1
-    inc_idx = [i for i, x in enumerate(tf["inputs"]) if x["s"] == "bool"]
-    inc_idx = inc_idx[0] + 1 if inc_idx else None
+    st_idx, inc_idx = track_refs(ctx, tf)
+    if st_idx is None:
+        ctx.unverifiable(rule + "1", "track-fn", "-", "the tracking function has no interruptibility state parameter / field")
+        return
     so = fb.adts["stream_opts::StreamOpts"]["variants"][0]["fields"]
     f_state = [i for i, f in enumerate(so) if "InterruptibilityState" in f["ty"]["s"]][0]
     f_inc = [i for i, f in enumerate(so) if f["ty"]["s"] == "bool"][0]
@@ -762,7 +796,7 @@ def I_rules(ctx, rule="I"):
         for (pi, fld, nm) in ((st_idx, f_state, "interruptibility_state"), (inc_idx, f_inc, "interrupted_next_item_include")):
             if pi is None:
                 continue
-            srcs = fl.sources_operand(b, t["args"][pi - 1])
+            srcs = fl.sources_operand(b, t["args"][pi[0] - 1], pi[1])
             if oi is not None:
                 has = any(s.kind == "param" and s[1] == e["id"] and s[2] == oi and s[3][:1] == (fld,) for s in srcs)
                 ctx.check(has, rule + "1", "%s|%s" % (nm, e["name"]), where,
@@ -794,8 +828,7 @@ def I2_rule(ctx, rule="I2"):
     if tf is None:
         ctx.unverifiable(rule, "track-fn", "-", "ready-stream tracking function not found")
         return
-    inc = [i for i, x in enumerate(tf["inputs"]) if x["s"] == "bool"]
-    I2(ctx, rule, ctx.fb.bodies[tf["id"]], inc[0] + 1 if inc else None)
+    I2(ctx, rule, ctx.fb.bodies[tf["id"]], track_refs(ctx, tf)[1])
 
 
 def I2(ctx, rule, tb, inc_idx):
@@ -808,7 +841,7 @@ def I2(ctx, rule, tb, inc_idx):
         for sb, vals in guards_of(tb, bb):
             d = tb.blocks[sb]["term"]["discr"]
             e = strip_refs(expr_operand(tb, d))
-            if e.kind == "arg" and e[1] == inc_idx:
+            if is_ref_expr(e, inc_idx):
                 arm = "true" if ("otherwise" in vals and "0" not in vals) else "false"
         # is the wrapped stream the tracking (pushing) stream?
         inner = strip_refs(expr_operand(tb, t["args"][0]))
@@ -1666,26 +1699,52 @@ def G_rules(ctx, rule="G"):
     where = m.where(fg)
     # G1 nodes: fold over iter_insertion() with one add_node(fn_info(f)) each
     addn = []
+    # a private constructor that receives the prepared node / edge iterators (`Self::from_parts(node_infos, edges)`) is part of
+    # the copy: its parameters stand for the arguments of its single call in from_graph
+    copy_helpers = {}
+    for hbb, ht in fg.calls():
+        hp = callee_path(ht) or ""
+        hb_ = fb.bodies.get(hp)
+        if hb_ is not None and hb_.kind == "fn" and hp.startswith("graph_info::") and not (fb.fns.get(hp) or {}).get("public") and \
+                len([1 for _, t2 in fg.calls() if callee_path(t2) == hp]) == 1:
+            copy_helpers[hp] = (hbb, ht)
+
+    def chain_through(body_, expr_):
+        ch = iterator_chain(ctx, body_, expr_)
+        if ch and ch[-1][0] == "leaf:arg" and body_.id in copy_helpers:
+            k_ = ch[-1][2][1]
+            hbb_, ht_ = copy_helpers[body_.id]
+            if 1 <= k_ <= len(ht_["args"]):
+                ch = ch[:-1] + iterator_chain(ctx, fg, expr_operand(fg, ht_["args"][k_ - 1]))
+        return ch
     for bx in m.reach_bodies(fg.id):
         for bb, t in bx.calls():
-            if callee_path(t) == "daggy::Dag::<N, E, Ix>::add_node" and bx.id.startswith(fg.id):
+            if callee_path(t) == "daggy::Dag::<N, E, Ix>::add_node" and (bx.id.startswith(fg.id) or bx.root in copy_helpers):
                 addn.append((bx, bb, t))
     ok1 = False
     why = "expected exactly one add_node site in from_graph, found %d" % len(addn)
-    if len(addn) == 1 and addn[0][0].id == fg.id and loop_region(ctx, fg, addn[0][1]) is not None:
+    if len(addn) == 1 and addn[0][0].kind == "fn" and (addn[0][0].id == fg.id or addn[0][0].id in copy_helpers) and \
+            loop_region(ctx, addn[0][0], addn[0][1]) is not None:
         # `for f in fn_graph.iter_insertion() { graph.add_node(fn_info(f)); }`
         bx, bb, t = addn[0]
-        lr = loop_region(ctx, fg, bb)
+        lr = loop_region(ctx, bx, bb)
         ws = fl.sources_operand(bx, t["args"][1])
         from_cb = bool(ws) and all(s_.kind == "usercall" for s_ in ws)
-        chain = iterator_chain(ctx, fg, lr["iter_expr"]) if lr.get("iter_expr") is not None else []
+        chain = chain_through(bx, lr["iter_expr"]) if lr.get("iter_expr") is not None else []
         names = [c[0] for c in chain if not c[0].startswith("inline:")]
         sel = [x for x in names if x in SELECTIVE_ITER or x in MORE_ITER]
         src_ok = any("node_references" in x or "node_weights" in x or "raw_nodes" in x for x in names) or \
             any(c[0].startswith("inline:fn_graph::FnGraph::<F>::iter_insertion") for c in chain)
-        gs_ = [g for g in cond_guards(fg, bb) if g[0] in lr["blocks"] and g[0] != lr.get("switch_bb")]
+        gs_ = [g for g in cond_guards(bx, bb) if g[0] in lr["blocks"] and g[0] != lr.get("switch_bb")]
         pcs = m.param_calls(bx)
         arg_ok = len(pcs) == 1 and bool(fl.sources_operand(bx, pcs[0][1]["args"][1]))
+        if not pcs:
+            # the caller's function is applied by a `map` in the chain (`iter_insertion().map(fn_info)`)
+            for c_ in chain:
+                if c_[0] == "std::iter::Iterator::map" and len(c_[2][2]) > 1:
+                    fe_ = strip_refs(c_[2][2][1])
+                    if fe_.kind in ("arg", "local") and c_[1].locals[fe_[1]].get("k") == "param":
+                        arg_ok = True
         ok1 = from_cb and src_ok and not sel and not gs_ and not lr["early_exits"] and arg_ok
         why = "weight from callback: %s; unfiltered insertion-order loop: %s (chain %s); unconditional: %s; no early exit: %s" % (
             from_cb, src_ok and not sel, [c[0] for c in chain], not gs_, not lr["early_exits"])
@@ -1725,12 +1784,15 @@ def G_rules(ctx, rule="G"):
     ctx.check(ok1, rule + "1", "nodes", where,
               "nodes come from iter_insertion() in order, each mapped by the caller's function, one unconditional add_node each", why)
     # G2 edges
-    adde = [(bb, t) for bb, t in fg.calls() if callee_path(t) in ("daggy::Dag::<N, E, Ix>::add_edges",)]
+    adde_b = [(xb_, bb, t) for xb_ in [fg] + [fb.bodies[h_] for h_ in sorted(copy_helpers)] for bb, t in xb_.calls()
+              if callee_path(t) in ("daggy::Dag::<N, E, Ix>::add_edges",)]
+    adde = [(bb, t) for (_, bb, t) in adde_b]
+    eb_ = adde_b[0][0] if len(adde_b) == 1 else fg
     ok2 = False
     why = "expected one add_edges call, found %d" % len(adde)
     if len(adde) == 1:
         bb, t = adde[0]
-        chain = iterator_chain(ctx, fg, expr_operand(fg, t["args"][1]))
+        chain = chain_through(eb_, expr_operand(eb_, t["args"][1]))
         names = [c[0] for c in chain]
         sel = [x for x in names if x in SELECTIVE_ITER or x in MORE_ITER]
         has_raw = any(x.endswith("::raw_edges") or x.endswith("::edge_references") for x in names)
@@ -1809,7 +1871,13 @@ def G_rules(ctx, rule="G"):
     ctx.check(ok2, rule + "2", "edges", where,
               "edges come from raw_edges() in order, mapped to (source(), target(), weight), unfiltered, into add_edges", why)
     # G1b/G2b: no return path of from_graph skips the node copy or the edge copy (except for a graph without nodes / edges)
-    def bypass_ok(via, allow):
+    def bypass_ok(via, allow, fg=fg):
+        if fg.id in copy_helpers:
+            # the copy lives in the private constructor: from_graph itself must reach that call on every path
+            hbb_, _ = copy_helpers[fg.id]
+            fg0 = fb.bodies["graph_info::GraphInfo::<NodeInfo>::from_graph"]
+            if set(fg0.exits()) & fg0.reachable(0, avoid={hbb_}):
+                return False
         via = set(via)
         reach = fg.reachable(0, avoid=via)
         if not (set(fg.exits()) & reach):
@@ -1835,13 +1903,13 @@ def G_rules(ctx, rule="G"):
             ctx.check(bypass_ok([uses[0][1]], ("::node_count",)), rule + "1", "nodes-always", where,
                       "every return path of from_graph runs the node copy (or the graph has no nodes)",
                       "from_graph can return without copying the nodes for a graph that has nodes")
-    elif len(addn) == 1 and addn[0][0].id == fg.id:
-        lr_ = loop_region(ctx, fg, addn[0][1])
-        ctx.check(bypass_ok([lr_["next_bb"] if lr_ else addn[0][1]], ("::node_count",)), rule + "1", "nodes-always", where,
+    elif len(addn) == 1 and addn[0][0].kind == "fn" and (addn[0][0].id == fg.id or addn[0][0].id in copy_helpers):
+        lr_ = loop_region(ctx, addn[0][0], addn[0][1])
+        ctx.check(bypass_ok([lr_["next_bb"] if lr_ else addn[0][1]], ("::node_count", "::len"), fg=addn[0][0]), rule + "1", "nodes-always", where,
                   "every return path of from_graph runs the node copy (or the graph has no nodes)",
                   "from_graph can return without copying the nodes for a graph that has nodes")
     if len(adde) == 1:
-        ctx.check(bypass_ok([adde[0][0]], ("::node_count", "::edge_count")), rule + "2", "edges-always", where,
+        ctx.check(bypass_ok([adde[0][0]], ("::node_count", "::edge_count", "::len"), fg=eb_), rule + "2", "edges-always", where,
                   "every return path of from_graph runs the edge copy (or the graph has no edges)",
                   "from_graph can return without copying the edges for a graph that has edges")
     # G7: the copy is returned as built: no node/edge-set mutator other than the copying add_node / add_edges touches it
